@@ -133,6 +133,7 @@ pub fn exec_session(run: &Run, focus: Focus, sess: &Session, stats: &Stats, budg
                     }
                 };
                 let before = crate::monitors::snapshot(&g);
+                crate::util::set_current_case(sess.json(i).dump().replace('\n', " "), sess.key(i));
                 let o = run_search(&mut ps, &g, spec, env, budget);
                 stats.searches.fetch_add(1, Ordering::Relaxed);
                 stats.infos.fetch_add(o.infos.len() as u64, Ordering::Relaxed);
@@ -331,6 +332,8 @@ pub fn max_depth_sessions() -> Vec<Session> {
         "8/8/8/3k4/8/3KN3/8/8 b - - 0 1",      // king and minor v king
         "7k/5K2/8/6Q1/8/8/8/8 b - - 100 90",   // clock already at 100, one legal move
     ];
+    // deep iterations on small but non-trivial trees (quiet cut-offs with a large remaining depth)
+    let deep = [("8/8/8/4k3/8/8/4P3/4K3 w - - 0 1", 20u8), ("8/5p2/5k2/8/5K2/5P2/8/8 w - - 0 1", 22), ("8/8/p7/P7/1k6/8/1K6/8 b - - 0 1", 22)];
     let mut out = vec![];
     for r in roots {
         let g = GameSpec::fen(r);
@@ -339,6 +342,34 @@ pub fn max_depth_sessions() -> Vec<Session> {
         }
         // no depth limit at all: the search ends by itself at the maximum depth
         out.push(Session { hash_mb: 1, start_gen: 0, steps: vec![Step::Search(g.clone(), Spec { depth: None, tc: Tc::Infinite, overhead_ms: 0 }, Env::Default)] });
+    }
+    for (r, d) in deep {
+        out.push(Session { hash_mb: 1, start_gen: 0, steps: vec![Step::Search(GameSpec::fen(r), Spec::depth(d), Env::Default)] });
+    }
+    out
+}
+
+/// Time limits with no depth limit under a virtual clock that advances with the nodes: the search must end by
+/// itself (a limit of zero and a missing clock are limits too).
+pub fn timed_no_depth_sessions() -> Vec<Session> {
+    let roots = ["rnbqkbnr/pppppppp/8/8/8/8/PPPPPPPP/RNBQKBNR w KQkq - 0 1", "r3k2r/p1ppqpb1/bn2pnp1/3PN3/1p2P3/2N2Q1p/PPPBBPPP/R3K2R b KQkq - 0 1", "8/8/8/4k3/8/8/4P3/4K3 w - - 0 1"];
+    let tcs = [
+        Tc::MoveTime(0),
+        Tc::MoveTime(1),
+        Tc::MoveTime(30),
+        Tc::Clocks(Some(0), Some(0), None, None, None),
+        Tc::Clocks(Some(1), Some(1), Some(0), Some(0), Some(1)),
+        // only the OTHER side's clock is given (the mover's is missing)
+        Tc::Clocks(Some(60_000), None, Some(1000), None, None),
+        Tc::Clocks(None, Some(60_000), None, Some(1000), None),
+        Tc::Clocks(Some(300), Some(300), Some(10), Some(10), Some(4_294_967_295)),
+    ];
+    let mut out = vec![];
+    for r in roots {
+        for tc in &tcs {
+            let spec = Spec { depth: None, tc: tc.clone(), overhead_ms: 0 };
+            out.push(Session { hash_mb: 1, start_gen: 0, steps: vec![Step::Search(GameSpec::fen(r), spec, Env::Clock(Clock::PerNode(1000)))] });
+        }
     }
     out
 }
@@ -427,7 +458,15 @@ pub fn c04_c08(run: &Run, focus: Focus) -> (u64, u64) {
         let before = stats.searches.load(Ordering::Relaxed);
         run_sessions(run, focus, &s, &stats);
         total_sessions += s.len() as u64;
-        run.family("MAX-DEPTH", "5 tiny-tree roots (bare kings, root in check with the clock at 99, king+minor, clock at 100) x depth limit 254, 255 and none", s.len() as u64, stats.searches.load(Ordering::Relaxed) - before, true, "");
+        run.family("MAX-DEPTH", "5 tiny-tree roots (bare kings, root in check with the clock at 99, king+minor, clock at 100) x depth limit 254, 255 and none; 3 pawn endings to depth 20-22", s.len() as u64, stats.searches.load(Ordering::Relaxed) - before, true, "");
+        let s = timed_no_depth_sessions();
+        let before = stats.searches.load(Ordering::Relaxed);
+        par_for(s.len(), |i| {
+            // a search that honours its limit ends within a few polls: 3 M nodes of virtual time is far beyond any of them
+            exec_session(run, focus, &s[i], &stats, 3_000_000);
+        });
+        total_sessions += s.len() as u64;
+        run.family("TIME-LIMIT-NO-DEPTH", "3 roots x {movetime 0, 1, 30; clocks 0/0; clocks 1/1 movestogo 1; only the other side's clock; movestogo 4294967295}, no depth limit, virtual clock of 1 microsecond per node: the search must end by itself (node budget 3 M)", s.len() as u64, stats.searches.load(Ordering::Relaxed) - before, true, "");
         let sessions = clock_expiry_sessions(run, &stats, quick);
         let before = stats.searches.load(Ordering::Relaxed);
         run_sessions(run, focus, &sessions, &stats);
@@ -466,6 +505,10 @@ pub fn c09(run: &Run) -> (u64, u64) {
     // time-limited under the virtual clock (1 microsecond per node)
     roots.push((GameSpec::fen(mid[1]), Spec { depth: None, tc: Tc::MoveTime(150), overhead_ms: 0 }));
     roots.push((GameSpec::fen(mid[0]), Spec { depth: None, tc: Tc::Clocks(Some(2000), Some(2000), Some(0), Some(0), None), overhead_ms: 0 }));
+    // limits that have expired before the search starts: a zero move time, a zero clock, a missing clock
+    roots.push((GameSpec::fen(mid[1]), Spec { depth: None, tc: Tc::MoveTime(0), overhead_ms: 0 }));
+    roots.push((GameSpec::fen(mid[3]), Spec { depth: None, tc: Tc::Clocks(Some(0), Some(0), None, None, None), overhead_ms: 0 }));
+    roots.push((GameSpec::fen(mid[0]), Spec { depth: None, tc: Tc::Clocks(None, Some(60_000), None, Some(1000), None), overhead_ms: 0 }));
     if !quick {
         for s in families::seeds().iter().filter(|s| s.big) {
             roots.push((GameSpec::fen(s.fen), Spec::depth(7)));
@@ -485,8 +528,14 @@ pub fn c09(run: &Run) -> (u64, u64) {
             }
         };
         let mut ps = PersistentState::new(1);
-        let o = run_search(&mut ps, &game, spec, &base_env(None), DEFAULT_NODE_BUDGET);
+        let o = run_search(&mut ps, &game, spec, &base_env(None), if timed { 8_000_000 } else { DEFAULT_NODE_BUDGET });
         stats.searches.fetch_add(1, Ordering::Relaxed);
+        if let Err(e) = &o.best {
+            let sess = Session { hash_mb: 1, start_gen: 0, steps: vec![Step::Search(g.clone(), spec.clone(), base_env(None))] };
+            let kind = if e.contains("node budget") { "search-does-not-terminate" } else { "search-panic" };
+            run.violation(kind, format!("{kind}|{}", sess.key(0)), sess.json(0), format!("{} {} without a stop request: {e}", g.key(), spec.text()));
+            continue;
+        }
         let p = o.polls;
         total_polls += p;
         run.count("polls_of_unperturbed_searches", p);
